@@ -24,7 +24,7 @@ import ast
 import copy as _copy
 
 from ..astutil import call_name, calls, last_name, u
-from ..effects import TreeFx, walk_no_nested, GRAPH_MUT
+from ..effects import TreeFx, walk_no_nested, plain_events, GRAPH_MUT
 from ..formula import extract, spec
 from ..model import AnalysisError, FunctionInfo
 from ..paths import enumerate_paths
@@ -108,28 +108,31 @@ def _strip_breaks(fi):
     return f2
 
 
-def _touches_views(fi):
+def _touches_views(fi, me="self"):
+    """Does the function write the four views of the tree held by `me` (syntactically)?"""
+    def mine(e):
+        return isinstance(e, ast.Attribute) and e.attr in MAPS + ("_data", "_graph") and isinstance(e.value, ast.Name) and e.value.id == me
+
     for n in walk_no_nested(fi.node):
-        if isinstance(n, ast.Attribute) and n.attr in MAPS + ("_data", "_graph"):
-            if isinstance(n.ctx, (ast.Store, ast.Del)):
-                return True
+        if mine(n) and isinstance(n.ctx, (ast.Store, ast.Del)):
+            return True
         if isinstance(n, (ast.Assign, ast.AugAssign, ast.Delete)):
             tg = n.targets if not isinstance(n, ast.AugAssign) else [n.target]
             for t in tg:
-                if isinstance(t, ast.Subscript) and isinstance(t.value, ast.Attribute) and t.value.attr in MAPS + ("_data", "_graph"):
+                if isinstance(t, ast.Subscript) and mine(t.value):
                     return True
         if isinstance(n, ast.Call) and isinstance(n.func, ast.Attribute):
             f = n.func
-            if f.attr in GRAPH_MUT and isinstance(f.value, ast.Attribute) and f.value.attr == "_graph":
+            if f.attr in GRAPH_MUT and mine(f.value) and f.value.attr == "_graph":
                 return True
-            if f.attr in ("append", "extend", "remove", "pop", "clear", "insert") and isinstance(f.value, ast.Subscript) and isinstance(f.value.value, ast.Attribute) and f.value.value.attr == "_data":
+            if f.attr in ("append", "extend", "remove", "pop", "clear", "insert") and isinstance(f.value, ast.Subscript) and mine(f.value.value) and f.value.value.attr == "_data":
                 return True
     return False
 
 
 def rule_V1(ctx, fx):
     prog = ctx.prog
-    ctx.rule("V1", "name->index map, index->name map, data lists and node payloads are written together (entries swapped, same node, same data point); a tree under construction that receives nodes gets its index entries", 8)
+    ctx.rule("V1", "name->index map, index->name map, data lists and node payloads are written together (entries swapped, same node, same data point); a tree under construction that receives nodes gets its index entries", 35)
     for name, fi in list(fx.tree_methods.items()) + [(k, v["getter"]) for k, v in fx.tree_cls.properties.items() if "getter" in v]:
         me = fx.self_name(fi)
         if me is None:
@@ -137,18 +140,18 @@ def rule_V1(ctx, fx):
         try:
             ex = extract(prog, _strip_breaks(fi), opaque_self_methods=NAV, copy_is_identity=False)
         except Unsupported as e:
-            if _touches_views(fi):
+            if _touches_views(fi, me):
                 raise AnalysisError("V1: %s edits the views but cannot be interpreted: %s" % (fi.qualname, e))
             continue
-        _v1_self(ctx, fi, ex)
+        _v1_self(ctx, fi, ex, me)
         ctx.analysed(fi)
     _v1_constructed(ctx, fx)
 
 
-def _v1_self(ctx, fi, ex):
+def _v1_self(ctx, fi, ex, me="self"):
     S = vkey(Poly.atom(("v", "P0")))
-    V = _Views(S, ex.events)
-    evs = ex.events
+    evs = plain_events(ex.events)  # `self` after an opaque call made for its effect is still `self`
+    V = _Views(S, evs)
     I, R, DI, DR, DD, DA, DRm, PA, PRm, ADD, REM, NODEID, WHOLE = [], [], [], [], [], [], [], [], [], [], [], [], {}
     resets = False
     for e in evs:
@@ -186,6 +189,8 @@ def _v1_self(ctx, fi, ex):
             resets = True
     whole_self = WHOLE.get(S, {})
     lab = _short(fi)
+    if _touches_views(fi, me) and not (I or R or DI or DR or DD or DA or DRm or PA or PRm or ADD or REM or WHOLE or resets):
+        raise AnalysisError("V1: %s edits the views but no such event on `self` was extracted" % fi.qualname)
     done = set()
 
     def once(key):
@@ -500,7 +505,7 @@ def s(self, node_map_idx, subtree, subtree_dummy_root):
 
 def rule_V2(ctx):
     prog = ctx.prog
-    ctx.rule("V2", "relabelling writes payload id, data, both maps for every discovered vertex; relabel_nodes installs the containers of that one visitor and carries the outliers over", 2)
+    ctx.rule("V2", "relabelling writes payload id, data, both maps for every discovered vertex; relabel_nodes installs the containers of that one visitor and carries the outliers over", 5)
     dv = prog.fn("PreOrderNodeRelabeller.discover_vertex")
     vcls = dv.cls
     if not any(b.split(".")[-1] == "DFSVisitor" for b in vcls.bases):
@@ -514,21 +519,25 @@ def rule_V2(ctx):
     g = [e for e in ex.events if e.name.endswith("dfs_search")]
     w = [e for e in sp.events if e.name.endswith("dfs_search")]
     ok = len(g) == len(w) == 1 and len(g[0].args) == len(w[0].args) and all(_eq(a, b) for a, b in zip(g[0].args, w[0].args))
+    ctors = [c for c in calls(rn.node) if last_name(c) == vcls.name]
+    srcs = {u(n.value.value) for n in walk_no_nested(rn.node) if isinstance(n, ast.Assign) and isinstance(n.value, ast.Attribute) and n.value.attr in ("node_indices", "node_indices_rev", "data") and any(isinstance(t, ast.Attribute) and t.attr in MAPS + ("_data",) for t in n.targets)}
+    ctx.check(len(ctors) == 1 and len(srcs) <= 1, "V2", "Tree.relabel_nodes: one visitor object supplies the installed maps", rn.where(), "the installed containers come from %d visitor constructions / %d different objects: the maps of a visitor that was never driven over the graph are empty" % (len(ctors), len(srcs)), construct=rn.qualname, stmt="one visitor object")
     ctx.check(ok, "V2", "Tree.relabel_nodes: the visitor is driven over the whole graph from the root", rn.where(), "dfs_search is not run on self._graph from the root with the visitor whose containers are installed", construct=rn.qualname, stmt="dfs_search(graph, [root], visitor)")
     ctx.analysed(dv, vi, rn)
 
 
 def rule_V3(ctx):
     prog = ctx.prog
-    ctx.rule("V3", "graft relabelling: every grafted node but the dummy root gets data and index entries; a clashing label is replaced by one strictly above every label of both trees, incremented before use", 1)
+    ctx.rule("V3", "graft relabelling: every grafted node but the dummy root gets data and index entries; a clashing label is replaced by one strictly above every label of both trees, incremented before use", 2)
     f = prog.fn("Tree._relabel_grafted_subtree_nodes")
     _same_slots(ctx, "V3", "Tree._relabel_grafted_subtree_nodes", f, extract(prog, f), spec(prog, SPEC_GRAFT, f), "what graft relabelling writes")
     # add_subtree hands it the compose map, the composed subtree and the dummy root that it removed from the graph
     a = prog.fn("Tree.add_subtree")
     ex = extract(prog, a, opaque_self_methods=NAV | {"_relabel_grafted_subtree_nodes"})
-    comp = [e for e in ex.events if e.name == ".compose"]
-    rel = [e for e in ex.events if e.name == "._relabel_grafted_subtree_nodes"]
-    rem = [e for e in ex.events if e.name == ".remove_node_retain_edges"]
+    events = plain_events(ex.events)
+    comp = [e for e in events if e.name == ".compose"]
+    rel = [e for e in events if e.name == "._relabel_grafted_subtree_nodes"]
+    rem = [e for e in events if e.name == ".remove_node_retain_edges"]
     ok = bool(comp) and len(comp) == len(rel) == len(rem)
     why = "add_subtree no longer composes, removes the dummy root and relabels once per path"
     if ok:
@@ -601,12 +610,12 @@ def _move_functions(prog, fx):
 
 def rule_L1(ctx, fx):
     prog = ctx.prog
-    ctx.rule("L1", "linear use of data points and subtrees in the sampler moves: removed => added back exactly once (same variable, same tree for a clone move); outliers transferred in the same loop body; get/remove_subtree paired on one tree; each graft candidate is a fresh copy grafted once; grafted outliers carried over", 7)
+    ctx.rule("L1", "linear use of data points and subtrees in the sampler moves: removed => added back exactly once (same variable, same tree for a clone move); outliers transferred in the same loop body; get/remove_subtree paired on one tree; each graft candidate is a fresh copy grafted once; grafted outliers carried over", 10)
     transfer_classes = {}
     for fi in _move_functions(prog, fx):
         all_ops = _ops(fi.node)
         kinds = {k for k, _, _ in all_ops}
-        if not (kinds & (set(RM_OPS) | {"add_subtree", "remove_subtree"})) and not _outlier_loops(fi):
+        if not (kinds & (set(RM_OPS) | {"add_subtree", "remove_subtree", "get_subtree"})) and not _outlier_loops(fi):
             continue
         _l1_remove_add(ctx, fi, all_ops)
         _l1_outlier_loops(ctx, fi, transfer_classes)
@@ -627,13 +636,22 @@ def _l1_remove_add(ctx, fi, all_ops):
     def walk_path(steps):
         held = []  # (dp text, tree, rm kind, call)
         spent = set()
+        credit = []  # (dp text, tree): added to another tree before being removed from its own (a transfer)
         for s in steps:
             for k, t, c in _step_ops(s):
                 if k in RM_OPS and c.args:
-                    held.append((u(c.args[0]), t, RM_OPS[k], c))
+                    d = u(c.args[0])
+                    pre = [x for x in credit if x[0] == d and x[1] != t]
+                    if pre:
+                        credit.remove(pre[0])
+                        spent.add(d)
+                        continue
+                    held.append((d, t, RM_OPS[k], c))
                 elif k in ADD_OPS and c.args:
                     d = u(c.args[0])
                     hit = [h for h in held if h[0] == d]
+                    if not hit and d not in spent:
+                        credit.append((d, t))
                     if hit:
                         h = hit[0]
                         held.remove(h)
@@ -675,7 +693,9 @@ def _l1_outlier_loops(ctx, fi, transfer_classes):
     for loop in _outlier_loops(fi):
         d, X = loop.target.id, loop.iter.value.id
         end = getattr(loop, "end_lineno", loop.lineno)
-        used_after = any(isinstance(n, ast.Name) and n.id == X and isinstance(n.ctx, ast.Load) and n.lineno > end for n in walk_no_nested(fi.node))
+        graft_src = {id(c.args[0]) for k, t, c in _ops(fi.node) if k == "add_subtree" and c.args and isinstance(c.args[0], ast.Name) and c.args[0].id == X}
+        # X "lives on" if it is read after the loop other than as the subtree grafted into another tree
+        used_after = any(isinstance(n, ast.Name) and n.id == X and isinstance(n.ctx, ast.Load) and n.lineno > end and id(n) not in graft_src for n in walk_no_nested(fi.node))
         ok, why = True, ""
         targets = set()
         paths = _iteration_paths(loop)
@@ -708,7 +728,44 @@ def _l1_outlier_loops(ctx, fi, transfer_classes):
                     transfer_classes.setdefault(fi.cls.qualname, (fi.cls, fi))
 
 
+def _escapes(name, node):
+    """Is the local `name` handed on under `node`: passed to a call, returned, or edited through a tree method?"""
+    for n in walk_no_nested(node):
+        if isinstance(n, ast.Call):
+            for a in list(n.args) + [k.value for k in n.keywords]:
+                if any(isinstance(x, ast.Name) and x.id == name for x in ast.walk(a)):
+                    return True
+            if isinstance(n.func, ast.Attribute) and isinstance(n.func.value, ast.Name) and n.func.value.id == name and (n.func.attr in ADD_OPS or n.func.attr in RM_OPS or n.func.attr in ("add_subtree", "remove_subtree")):
+                return True
+        if isinstance(n, ast.Return) and n.value is not None and any(isinstance(x, ast.Name) and x.id == name for x in ast.walk(n.value)):
+            return True
+    return False
+
+
+def _l1_get_without_remove(ctx, fi, all_ops):
+    """A subtree extracted from X and handed on must have been removed from X on every path (otherwise its
+    data points sit both in X and in the extracted copy)."""
+    for n in walk_no_nested(fi.node):
+        if not (isinstance(n, ast.Assign) and len(n.targets) == 1 and isinstance(n.targets[0], ast.Name) and isinstance(n.value, ast.Call)):
+            continue
+        v = n.value
+        if not (isinstance(v.func, ast.Attribute) and v.func.attr == "get_subtree" and isinstance(v.func.value, ast.Name)):
+            continue
+        S, X = n.targets[0].id, v.func.value.id
+        if any(k == "remove_subtree" and t == X and c.args and u(c.args[0]) == S for k, t, c in all_ops):
+            continue  # paired: judged by the pairing rule below
+        bad = False
+        for steps, oc in enumerate_paths(fi.node.body):
+            if oc not in ("fall", "return"):
+                continue
+            pos = [i for i, s in enumerate(steps) if s.kind != "with" and s.node is n]
+            if pos and any(_escapes(S, x) for s in steps[pos[0] + 1:] for x in ([s.node] if s.kind != "with" else [it.context_expr for it in s.node.items])):
+                bad = True
+        ctx.check(not bad, "L1", "%s: subtree %s extracted from %s is removed from it before it is handed on" % (_short(fi), S, X), fi.where(n), "`%s = %s.get_subtree(…)` is handed on but never removed from `%s`: the extracted clones and their data points stay in `%s` and are duplicated when the subtree is grafted back" % (S, X, X, X), construct=fi.qualname, stmt="get_subtree without remove_subtree")
+
+
 def _l1_get_remove(ctx, fi, all_ops):
+    _l1_get_without_remove(ctx, fi, all_ops)
     rem = [(t, c) for k, t, c in all_ops if k == "remove_subtree"]
     if not rem:
         return
@@ -844,10 +901,14 @@ def _l1_prune_regraft_plumbing(ctx):
         raise AnalysisError("L1: %s: expected exactly one add_subtree(<name>, …)" % cons.qualname)
     T, gc = grafts[0]
     cdefs = [n.value for n in walk_no_nested(cons.node) if isinstance(n, ast.Assign) and any(isinstance(t, ast.Name) and t.id == T for t in n.targets)]
-    if len(cdefs) != 1 or not (isinstance(cdefs[0], ast.Call) and last_name(cdefs[0]) == "copy" and isinstance(cdefs[0].func.value, ast.Name)):
-        raise AnalysisError("L1: %s: the grafted tree is not a copy of a parameter" % cons.qualname)
+    if len(cdefs) == 1 and isinstance(cdefs[0], ast.Call) and last_name(cdefs[0]) == "copy" and isinstance(cdefs[0].func, ast.Attribute) and isinstance(cdefs[0].func.value, ast.Name):
+        p_pruned = cdefs[0].func.value.id
+    elif len(cdefs) == 1 and isinstance(cdefs[0], ast.Name):
+        p_pruned = cdefs[0].id  # a missing copy is the candidate rule's finding, not a plumbing problem
+    else:
+        raise AnalysisError("L1: %s: the grafted tree is not derived from a parameter" % cons.qualname)
     cparams = cons.params
-    p_pruned, p_sub = cdefs[0].func.value.id, gc.args[0].id
+    p_sub = gc.args[0].id
     if p_pruned not in cparams or p_sub not in cparams:
         raise AnalysisError("L1: %s: pruned tree / subtree are not parameters" % cons.qualname)
     # driver: unpack and call
@@ -1006,7 +1067,7 @@ class _TreeTyped:
 
 def rule_L2(ctx):
     prog = ctx.prog
-    ctx.rule("L2", "every sampler returns a tree on every path; the SMC driver consumes one data point per update over len(data_points) steps and is handed the order drawn from the tree", 7)
+    ctx.rule("L2", "every sampler returns a tree on every path; the SMC driver consumes one data point per update over len(data_points) steps and is handed the order drawn from the tree", 10)
     tt = _TreeTyped(prog)
     n = 0
     for fi in prog.functions.values():
@@ -1089,4 +1150,65 @@ def run(ctx):
     rule_L2(ctx)
 
 
-SELFTEST = []
+# Self-test catalogue: one textual edit each, applied to a scratch copy (see selftest.py).
+_T = "phyclone/tree/tree.py"
+_V = "phyclone/tree/visitors.py"
+_G = "phyclone/mcmc/gibbs_mh.py"
+_PG = "phyclone/mcmc/particle_gibbs.py"
+_SB = "phyclone/smc/samplers/base.py"
+SELFTEST = [
+    # ---- V1
+    {"name": "V1-remove_subtree-keeps-rev-entry", "kind": "break", "rule": "V1", "file": _T, "old": "                    del self._node_indices[node_id]\n                    del self._node_indices_rev[curr_idx]\n", "new": "                    del self._node_indices[node_id]\n"},
+    {"name": "V1-remove_subtree-keeps-data", "kind": "break", "rule": "V1", "file": _T, "old": "                    del self._data[node_id]\n                    curr_idx", "new": "                    curr_idx"},
+    {"name": "V1-rev-map-not-swapped", "kind": "break", "rule": "V1", "file": _T, "old": "        self._node_indices_rev[node_idx] = node\n", "new": "        self._node_indices_rev[node] = node_idx\n"},
+    {"name": "V1-add_node-not-registered", "kind": "break", "rule": "V1", "file": _T, "old": "        node_idx = self._graph.add_node(node_obj)\n        self._add_node_to_indices(node, node_idx)\n", "new": "        node_idx = self._graph.add_node(node_obj)\n        self._node_indices[node] = node_idx\n"},
+    {"name": "V1-get_subtree-nodes-not-registered", "kind": "break", "rule": "V1", "file": _T, "old": "            new._data[node] = list(self._data[node])\n\n            new._add_node_to_indices(node, node_idx)\n", "new": "            new._data[node] = list(self._data[node])\n"},
+    {"name": "V1-get_subtree-registration-swapped", "kind": "break", "rule": "V1", "file": _T, "old": "            new._add_node_to_indices(node, node_idx)\n", "new": "            new._add_node_to_indices(node_idx, node)\n"},
+    {"name": "V1-remove-skips-outlier-list", "kind": "break", "rule": "V1", "file": _T, "old": "        self._data[node].remove(data_point)\n\n        if node != self._OUTLIER_NODE_NAME:\n            node_idx = self._node_indices[node]\n", "new": "        if node != self._OUTLIER_NODE_NAME:\n            self._data[node].remove(data_point)\n            node_idx = self._node_indices[node]\n"},
+    {"name": "V1-payload-add-for-other-point", "kind": "break", "rule": "V1", "file": _T, "old": "            self._graph[node_idx].add_data_point(data_point)\n", "new": "            self._graph[node_idx].add_data_point(self._data[node][0])\n"},
+    {"name": "V1-list-add-without-data-list", "kind": "break", "rule": "V1", "file": _T, "old": "            self._data[node].extend(data)\n            self._graph[node_idx].add_data_point_list(data)", "new": "            self._graph[node_idx].add_data_point_list(data)"},
+    {"name": "V1-relabel-installs-one-map", "kind": "break", "rule": ["V1", "V2"], "file": _T, "old": "        self._node_indices = visitor.node_indices\n        self._node_indices_rev = visitor.node_indices_rev\n", "new": "        self._node_indices = visitor.node_indices\n"},
+    # ---- V2
+    {"name": "V2-visitor-forgets-rev-map", "kind": "break", "rule": "V2", "file": _V, "old": "        self.node_indices[node_id] = v\n        self.node_indices_rev[v] = node_id\n", "new": "        self.node_indices[node_id] = v\n"},
+    {"name": "V2-outliers-not-carried-over", "kind": "break", "rule": "V2", "file": _T, "old": "        data[self._OUTLIER_NODE_NAME] = list(self._data[self._OUTLIER_NODE_NAME])\n\n        visitor", "new": "        visitor"},
+    {"name": "V2-data-read-under-new-label", "kind": "break", "rule": "V2", "file": _V, "old": "            self.data[node_id] = self.orig_data[old_node_id]", "new": "            self.data[node_id] = self.orig_data[node_id]"},
+    {"name": "V2-counter-not-advanced", "kind": "break", "rule": "V2", "file": _V, "old": "            node_id = self.curr_idx\n            self.curr_idx += 1\n", "new": "            node_id = self.curr_idx\n"},
+    {"name": "V2-payload-id-not-written", "kind": "break", "rule": "V2", "file": _V, "old": "            self.graph[v].node_id = node_id\n", "new": ""},
+    {"name": "V2-maps-from-a-second-visitor", "kind": "break", "rule": "V2", "file": _T, "old": "        self._node_indices_rev = visitor.node_indices_rev\n", "new": "        self._node_indices_rev = PreOrderNodeRelabeller(self, data).node_indices_rev\n"},
+    # ---- V3
+    {"name": "V3-first_label-not-incremented", "kind": "break", "rule": "V3", "file": _T, "old": "                first_label += 1\n                node_name = first_label\n", "new": "                node_name = first_label\n"},
+    {"name": "V3-label-incremented-after-use", "kind": "break", "rule": "V3", "file": _T, "old": "                first_label += 1\n                node_name = first_label\n", "new": "                node_name = first_label\n                first_label += 1\n"},
+    {"name": "V3-fresh-label-ignores-subtree-labels", "kind": "break", "rule": "V3", "file": _T, "old": "first_label = max(self.nodes + subtree.nodes + [-1])", "new": "first_label = max(self.nodes + [-1])"},
+    {"name": "V3-dummy-root-registered", "kind": "break", "rule": "V3", "file": _T, "old": "            if old_idx == subtree_dummy_root:\n                continue\n", "new": ""},
+    {"name": "V3-data-read-under-new-label", "kind": "break", "rule": "V3", "file": _T, "old": "            self._data[node_name] = subtree._data[old_node_name]", "new": "            self._data[node_name] = subtree._data[node_name]"},
+    {"name": "V3-relabel-given-wrong-dummy", "kind": "break", "rule": "V3", "file": _T, "old": "self._relabel_grafted_subtree_nodes(node_map_idx, subtree, subtree_dummy_root)", "new": "self._relabel_grafted_subtree_nodes(node_map_idx, subtree, parent_idx)"},
+    # ---- L1
+    {"name": "L1-outliers-not-re-added", "kind": "break", "rule": "L1", "file": _PG, "old": "            for data_point in subtree.outliers:\n                new_tree.add_data_point_to_outliers(data_point)\n\n", "new": ""},
+    {"name": "L1-arm-removes-without-adding", "kind": "break", "rule": "L1", "file": _G, "old": "            new_tree.add_data_point_to_outliers(data_point)\n\n            new_trees.append(new_tree)", "new": "            new_trees.append(new_tree)"},
+    {"name": "L1-get-from-original-remove-from-copy", "kind": "break", "rule": "L1", "file": _G, "old": "        subtree = pruned_tree.get_subtree(subtree_root)", "new": "        subtree = tree.get_subtree(subtree_root)"},
+    {"name": "L1-subtree-extracted-never-removed", "kind": "break", "rule": "L1", "file": _PG, "old": "        tree.remove_subtree(subtree)\n\n        for data_point in tree.outliers:", "new": "        for data_point in tree.outliers:"},
+    {"name": "L1-re-add-to-the-uncopied-tree", "kind": "break", "rule": "L1", "file": _G, "old": "            new_tree.add_data_point_to_node(data_point, new_node)", "new": "            tree.add_data_point_to_node(data_point, new_node)"},
+    {"name": "L1-outlier-copied-not-moved", "kind": "break", "rule": "L1", "file": _PG, "old": "            tree.remove_data_point_from_outliers(data_point)\n\n            subtree", "new": "            subtree"},
+    {"name": "L1-candidates-share-one-tree", "kind": "break", "rule": "L1", "file": _G, "old": "            new_tree = pruned_tree.copy()\n\n            if parent is None:", "new": "            new_tree = pruned_tree\n\n            if parent is None:"},
+    {"name": "L1-builder-args-swapped", "kind": "break", "rule": "L1", "file": _G, "old": "self._create_sampled_trees_array(remaining_nodes, pruned_tree, subtree)", "new": "self._create_sampled_trees_array(remaining_nodes, subtree, pruned_tree)"},
+    {"name": "L1-graft-ignores-attachment-point", "kind": "break", "rule": "L1", "file": _G, "old": "new_tree.add_subtree(subtree, parent=parent)\n\n            new_tree.update()\n\n            trees", "new": "new_tree.add_subtree(subtree, parent=None)\n\n            new_tree.update()\n\n            trees"},
+    {"name": "L1-point-added-twice", "kind": "break", "rule": "L1", "file": _G, "old": "            new_tree.add_data_point_to_node(data_point, new_node)\n", "new": "            new_tree.add_data_point_to_node(data_point, new_node)\n            if new_node == old_node:\n                new_tree.add_data_point_to_node(data_point, new_node)\n"},
+    {"name": "L1-other-variable-re-added", "kind": "break", "rule": "L1", "file": _G, "old": "            new_tree.add_data_point_to_outliers(data_point)\n\n            new_trees.append(new_tree)", "new": "            new_tree.add_data_point_to_outliers(tree.data[0])\n\n            new_trees.append(new_tree)"},
+    {"name": "L1-weights-graft-without-copy", "kind": "break", "rule": "L1", "file": _PG, "old": "            new_tree = tree.copy()\n\n            new_tree.add_subtree", "new": "            new_tree = tree\n\n            new_tree.add_subtree"},
+    # ---- L2
+    {"name": "L2-prune-regraft-returns-count", "kind": "break", "rule": "L2", "file": _G, "old": "        return trees[idx][1]", "new": "        return trees[idx][0]"},
+    {"name": "L2-one-point-never-added", "kind": "break", "rule": "L2", "file": _SB, "old": "        self.num_iterations = len(data_points)", "new": "        self.num_iterations = len(data_points) - 1"},
+    {"name": "L2-skip-point", "kind": "break", "rule": "L2", "file": _SB, "old": "            self.iteration += 1\n\n        return self.swarm", "new": "            self.iteration += 2\n\n        return self.swarm"},
+    {"name": "L2-data-point-sampler-falls-off", "kind": "break", "rule": "L2", "file": _G, "old": "                tree_labels = tree.labels\n\n        return tree\n", "new": "                tree_labels = tree.labels\n\n        if len(data_idxs) > 0:\n            return tree\n"},
+    {"name": "L2-burnin-order-from-other-tree", "kind": "break", "rule": "L2", "file": "phyclone/smc/samplers/unconditional.py", "old": "data_sigma = RootPermutationDistribution.sample(tree, self._rng)", "new": "data_sigma = RootPermutationDistribution.sample(tree, self._rng)[1:]"},
+    # ---- benign
+    {"name": "benign-registration-inlined-as-two-stores", "kind": "benign", "file": _T, "old": "        node_idx = self._graph.add_node(node_obj)\n        self._add_node_to_indices(node, node_idx)\n", "new": "        node_idx = self._graph.add_node(node_obj)\n        self._node_indices[node] = node_idx\n        self._node_indices_rev[node_idx] = node\n"},
+    {"name": "benign-get_subtree-registration-inlined", "kind": "benign", "file": _T, "old": "            new._add_node_to_indices(node, node_idx)\n", "new": "            new._node_indices[node] = node_idx\n            new._node_indices_rev[node_idx] = node\n"},
+    {"name": "benign-remove_subtree-renamed-locals", "kind": "benign", "file": _T, "old": "                    del self._data[node_id]\n                    curr_idx = self._node_indices[node_id]\n                    del self._node_indices[node_id]\n                    del self._node_indices_rev[curr_idx]\n", "new": "                    ix = self._node_indices[node_id]\n                    del self._node_indices_rev[ix]\n                    del self._node_indices[node_id]\n                    del self._data[node_id]\n"},
+    {"name": "benign-visitor-if-else", "kind": "benign", "file": _V, "old": "        node_id = self.graph[v].node_id\n        if node_id != self.root_node_name:\n            old_node_id = node_id\n            node_id = self.curr_idx\n            self.curr_idx += 1\n            self.graph[v].node_id = node_id\n            self.data[node_id] = self.orig_data[old_node_id]\n", "new": "        payload = self.graph[v]\n        node_id = payload.node_id\n        if node_id == self.root_node_name:\n            pass\n        else:\n            fresh = self.curr_idx\n            self.data[fresh] = self.orig_data[node_id]\n            payload.node_id = fresh\n            node_id = fresh\n            self.curr_idx = fresh + 1\n"},
+    {"name": "benign-graft-label-arith", "kind": "benign", "file": _T, "old": "                first_label += 1\n                node_name = first_label\n", "new": "                node_name = 1 + first_label\n                first_label = node_name\n"},
+    {"name": "benign-outliers-carried-before-graft", "kind": "benign", "file": _PG, "old": "            new_tree.add_subtree(subtree, parent=parent)\n\n            for data_point in subtree.outliers:\n                new_tree.add_data_point_to_outliers(data_point)\n", "new": "            for data_point in subtree.outliers:\n                new_tree.add_data_point_to_outliers(data_point)\n\n            new_tree.add_subtree(subtree, parent=parent)\n"},
+    {"name": "benign-rename-data-point-variable", "kind": "benign", "file": _PG, "old": "        for data_point in tree.outliers:\n            tree.remove_data_point_from_outliers(data_point)\n\n            subtree.add_data_point_to_outliers(data_point)\n", "new": "        for dp in tree.outliers:\n            subtree.add_data_point_to_outliers(dp)\n            tree.remove_data_point_from_outliers(dp)\n"},
+    {"name": "benign-candidate-builder-print", "kind": "benign", "file": _G, "old": "            new_tree.add_subtree(subtree, parent=parent)\n\n            new_tree.update()\n\n            trees", "new": "            print(\"graft below\", parent)\n            new_tree.add_subtree(subtree, parent)\n\n            new_tree.update()\n\n            trees"},
+    {"name": "benign-sample-loop-reformatted", "kind": "benign", "file": _SB, "old": "            self.iteration += 1\n\n        return self.swarm", "new": "            self.iteration += 1\n            pass\n\n        result = self.swarm\n        return self.swarm"},
+]
